@@ -16,7 +16,7 @@ KEYS = [
 ]
 # whitespace other than blank/tab/CR/LF that str.strip() removes as well ("whitespace-trimmed" chart fields)
 RARE_WS = ["\u3000", "\xa0", "\x0b", "\x0c", "\x1c", "\x1f", "\u2028", "\x85", "\u2003"]
-ATOMS = list("ab01 ") + ["\n", "\n", "\r\n", ",", "=", ".", "\\:", "\\;", "\\\\", "\\#", "\\/", "//c #x:y;\n", "/", "#", "é", "ミ", "  ", "\t"]
+ATOMS = list("ab01 ") + ["\n", "\n", "\r\n", ",", "=", ".", "\\:", "\\;", "\\\\", "\\#", "\\/", "//c #x:y;\n", "/", "#", "é", "ミ", "  ", "\t", "\ufeff"]
 comp = st.lists(st.sampled_from(ATOMS), max_size=6).map("".join)
 notes_comp = st.sampled_from(["0000\n0000\n0000\n0000\n", "\n1000\n0100\n,\n0010\n0001\n", "", " 1 ", "0"])
 STRAY = ["x", "stray text", ": ;", "SUBTITLE:;\n", "junk ", ";", "a\nb", "0000"]
